@@ -5,6 +5,8 @@ import (
 	"context"
 	"errors"
 	"io"
+	"net"
+	"os"
 	"runtime"
 	"sync/atomic"
 
@@ -172,13 +174,19 @@ type demuxRun struct {
 func runScenario(s scenario) *demuxRun {
 	out := &demuxRun{}
 	// kind = reader kind + 10 * (EOF together with the last bytes) + 20 * (0 plain injected fault, 1 a fault wrapping
-	// io.EOF, 2 a fault wrapping io.ErrUnexpectedEOF)
+	// io.EOF, 2 io.ErrUnexpectedEOF, 3 os.ErrClosed, 4 net.ErrClosed, 5 io.ErrClosedPipe)
 	cr := &chunkReader{data: s.data, chunks: s.chunks, fault: s.fault, eofWithData: (s.kind/10)%2 == 1}
 	switch s.kind / 20 {
 	case 1:
 		cr.faultErr = &injectedWrapping{io.EOF}
 	case 2:
 		cr.faultErr = &injectedWrapping{io.ErrUnexpectedEOF}
+	case 3:
+		cr.faultErr = &injectedWrapping{os.ErrClosed} // a read on a closed file: a failure, not the end of the stream
+	case 4:
+		cr.faultErr = &injectedWrapping{net.ErrClosed}
+	case 5:
+		cr.faultErr = &injectedWrapping{io.ErrClosedPipe}
 	}
 	var rd io.Reader
 	var br *bufio.Reader
